@@ -68,7 +68,7 @@ func verifReadsWhileRacing(acc eds.AccessorStreamer, cells [][]libshare.Share, k
 // either present and fully readable or absent with no file left; every file
 // opened is closed once readers are done and the block removed.
 //
-//verif:opts nopanic noreplay preempt=1 preempt_thorough=2 maxwall=1700 cover=reader-served,reader-notfound,present-at-end,absent-at-end,cached,evicting
+//verif:opts nopanic nodeadlock noreplay preempt=1 preempt_thorough=2 maxwall=1700 cover=reader-served,reader-notfound,present-at-end,absent-at-end,cached,evicting
 func VerifH_C08_ConcurrentStoreUseIsSafe() {
 	verifSetup()
 	const k, tag, h1, h2 = 2, 0x21, uint64(7), uint64(1031) // 7 and 1031 share a lock stripe (mod 1024)
